@@ -134,8 +134,27 @@ def logical_schemas():
     return out
 
 
+def shape_schemas():
+    """Shapes outside the shared family: long chains of by-name references (not recursive), and named types whose names
+    contain or end in the specification's type words."""
+    out = []
+    for depth in (34, 48):
+        # a top-level union [T0, T1 -> T0, ..., T<depth> -> T<depth-1> -> ...]: each branch refers to its predecessor BY NAME,
+        # so drawing branch i follows i name hops (every i is one alternative of a single choice)
+        branches = [{"type": "record", "name": "T0", "fields": [{"name": "v", "type": "int"}]}]
+        for i in range(1, depth + 1):
+            branches.append({"type": "record", "name": "T%d" % i, "fields": [{"name": "next", "type": "T%d" % (i - 1)}]})
+        out.append(branches)
+    for nm in ("tagged_union", "credit_union", "union", "error_union", "my_record", "subarray", "bitmap", "prefixed", "enumeration"):
+        k = {"type": "record", "name": nm, "namespace": "demo", "fields": [{"name": "x", "type": "int"}]}
+        out.append({"type": "record", "name": "Holder_" + nm, "namespace": "demo", "fields": [
+            {"name": "a", "type": k}, {"name": "b", "type": nm}, {"name": "c", "type": ["null", "demo." + nm]}, {"name": "d", "type": {"type": "array", "items": nm}},
+            {"name": "e", "type": {"type": "map", "values": nm}}]})
+    return out
+
+
 def schema_list(tier):
-    return family.schemas("quick") + logical_schemas()
+    return family.schemas("quick") + logical_schemas() + shape_schemas()
 
 
 TWINS = [
